@@ -26,6 +26,7 @@ V == INSTANCE Versions
 P == INSTANCE DecodeProps
 L == INSTANCE Lines
 EN == INSTANCE Encode
+NZ == INSTANCE Normalize
 
 \* a module-level code object with small tables (tokens are arbitrary distinct numbers; the
 \* `*_keys` say which entries the encoder could confuse: none here)
@@ -36,6 +37,7 @@ Base ==
      const_keys |-> <<150, 151, 152>>, none_key |-> 150,
      const_is_str |-> <<FALSE, TRUE, FALSE>>, const_is_code |-> <<FALSE, FALSE, FALSE>>,
      first |-> 1, argcount |-> 0, posonly |-> 0, kwonly |-> 0, flags |-> {},
+     name |-> 60, filename |-> 61, stacksize |-> 10,
      table |-> <<>>]
 
 VARIABLES units, s, done
@@ -120,7 +122,7 @@ DataOf(r) ==
     [instrs |-> r.instrs, block_starts |-> r.block_starts, additional |-> r.additional, addline |-> <<>>,
      is_fn |-> FALSE, args |-> [po |-> <<>>, pk |-> <<>>, va |-> <<>>, ko |-> <<>>, vk |-> <<>>],
      doc |-> <<>>, fn_type |-> "", annotations |-> FALSE, nested |-> FALSE,
-     freevars |-> Base.freevars, first |-> 1]
+     freevars |-> Base.freevars, first |-> 1, name |-> 60, filename |-> 61, stacksize |-> 10]
 
 \* Domain of C01: what the compilers emit.  The <=3.9 peephole leaves redundant EXTENDED_ARG
 \* prefixes in front of jumps only (whose operands it shrinks in place); every other instruction
@@ -138,6 +140,33 @@ RoundTripModel ==
                /\ e.names = Base.names /\ e.varnames = Base.varnames /\ e.cellvars = Base.cellvars
                /\ e.consts = Base.consts /\ e.freevars = Base.freevars
                /\ e.flags = {} /\ e.argcount = 0
+
+\* ---------------------------------------------------------------- C05 / C06 at design level
+Lines1 == [k \in 1..Len(units) |-> 1]
+
+\* the code object Encode returns, as an abstract code object (classes are those of the opnames)
+ClsOf(op) == IF op = "EXTENDED_ARG" THEN "EXT" ELSE op
+CodeOfEnc(e) ==
+    [Base EXCEPT !.names = e.names, !.varnames = e.varnames, !.cellvars = e.cellvars, !.consts = e.consts,
+                 !.freevars = e.freevars, !.flags = e.flags,
+                 !.const_is_str = [i \in DOMAIN e.consts |-> e.consts[i] = 51]]
+    @@ [units |-> [k \in DOMAIN e.units |-> <<ClsOf(e.units[k][1]), e.units[k][1], e.units[k][2]>>]]
+
+\* Normalize(from_code(c)) is the canonical data of c's meaning  (C06: canonical form)
+CanonicalModel ==
+    done => NZ!Core(NZ!Normalize(DataOf(Result))) = NZ!Canon(Code, Ver, Lines1)
+
+\* to_code(Normalize(from_code(c))) means what c means  (C05), and decoding it and normalising
+\* again gives the same data  (C06: stable under a round trip)
+NormalizeModel ==
+    done => LET n == NZ!Normalize(DataOf(Result))
+                e == EN!Encode(n, Ver, KM, {51}, 150, 20)
+                c2 == CodeOfEnc(e)
+                l2 == [k \in 1..Len(c2.units) |-> 1]
+            IN /\ e.exc = ""
+               /\ NZ!Sem(c2, Scale, l2) = NZ!Sem(Code, Scale, Lines1)
+               /\ NZ!Canon(c2, Ver, l2) = NZ!Canon(Code, Ver, Lines1)
+               /\ NZ!Normalize(n) = n
 
 \* vacuity witnesses (each is expected to be VIOLATED: the model does reach such states)
 NoJumpToPrefixed ==
